@@ -3,6 +3,22 @@
 import json, subprocess
 
 CHECKS = {
+ "C02": dict(category="exploration", design="§3 C02",
+   text="Every program the REAL parser accepts out of: all built-ins x all tuples of argument value classes (incl. 2^31, 2^63, 1e300, NaN, +-Inf, non-ASCII/format strings, empty/nested/mixed composites, each also inside an any), all untyped expression trees with <= 1 (quick) / 2 (thorough) operators in 9 statement contexts, the C04 typing matrix, and structural programs (recursion, cyclic values, shadowing in loops, impossible repetitions) is run under a recording platform. The run may end only by completion, documented Evy panic, exit, failed test or step budget - never an internal error, Go panic, process death (worker journal) or hang (watchdog); typeof never reports any/none.",
+   note="Faithful execution of huge legal requests is excluded from the alphabet. Three recorded findings: self-containing []any/{}any values overflow the Go stack when printed or compared.",
+   technique="bounded-exhaustive enumeration of programs filtered by the real parser, executed in fenced worker processes with a crash journal"),
+ "C05": dict(category="exploration", design="§3 C05",
+   text="Seeds (all nestings to depth 1/2 with one effect per block, plus hand-written seeds with handlers/variadics/typed functions) x 11 mutation operators, one per static rule, applied at EVERY position where they apply; a mutant is judged when the reference static checker rejects it (stray text: invalid by grammar). Parse must return located errors, Evaluator.Run must return them with an empty effect trace, and the evy run binary must print nothing on stdout, report on stderr and exit non-zero.",
+   note="Reference static checker written from docs/spec.md; CLI runs for every 400th (quick) / 40th (thorough) mutant per rule.",
+   technique="exhaustive single-site mutation of enumerated seed programs, judged by a reference static checker"),
+ "C06": dict(category="exploration", design="§3 C06",
+   text="Program trees covering every syntax form x all layouts with <= 1 (quick) / 2 (thorough) deviations from the canonical layout (whitespace amount/presence, trailing and own-line comments, blank-line runs, newlines/comments inside literals, tabs, CR) plus NUL bytes at every token boundary. Format(src) must keep the exact non-whitespace token sequence (independent tokenizer, literals by value), parse again to the same tree and behave identically under the recorder.",
+   note="Texts that no legal layout of a generated tree produces are out of scope here (C05 covers wrongly accepted texts).",
+   technique="deviation-bounded exhaustive enumeration of layouts of enumerated program trees (choice-sequence explorer)"),
+ "C07": dict(category="exploration", design="§3 C07",
+   text="Same sources as C06: Format is idempotent; every layout variant formats to the same text as its whitespace-equivalent base (same tree, comments and line structure, canonical amounts); the text has 4 spaces per block level, no trailing whitespace, no two consecutive blank lines, exactly one final newline; evy fmt -c accepts exactly the formatter's own output.",
+   note="Inside multi-line literals any multiple of four between the block level and one level per open bracket is accepted (the statement does not fix it). Recorded finding: trailing blank line kept (frozen by the suite).",
+   technique="deviation-bounded exhaustive enumeration of layouts with equivalence-class comparison"),
  "C01": dict(category="exploration", design="§3 C01",
    text="All well-typed expression trees with up to 2 (quick) / 3 (thorough, reduced leaves) operator nodes over every operator of the specification's table and operand type, leaves = literals, variables and effectful calls (expose operand order and short-circuiting), NaN/Inf operands; each printed with minimal and full parentheses in tight-argument, spaced right-hand-side and grouped contexts; run on the real parser+evaluator and compared (effect trace + result class) with an independent reference interpreter written from docs/spec.md.",
    note="Operand values restricted to the leaf alphabet; IEEE arithmetic itself is Go's float64 on both sides; reference interpreter validated against the 57 documented example outputs.",
